@@ -786,7 +786,7 @@ def main(tier):
         ck.count("readelf.cross-checked", nre)
 
     g = load_gen.ElfGen(None, ck)
-    nelf = 450 if quick else 8000
+    nelf = 380 if quick else 8000
     for n in range(nelf):
         r = rng("C15/elf/%d" % n)
         g.r = r
@@ -802,11 +802,11 @@ def main(tier):
         r = rng("C15/macho/%d" % n)
         data, meta = load_gen.macho_image(r, ck)
         run.macho(data, "gen:%d" % n, meta=meta)
-    for n in range(120 if quick else 2500):
+    for n in range(100 if quick else 2500):
         r = rng("C15/hex/%d" % n)
         data, meta = load_gen.hex_stream(r, ck)
         run.records("hex", data, "gen:%d" % n, meta=meta)
-    for n in range(120 if quick else 2500):
+    for n in range(100 if quick else 2500):
         r = rng("C15/srec/%d" % n)
         data, meta = load_gen.srec_stream(r, ck)
         run.records("srec", data, "gen:%d" % n, meta=meta)
@@ -819,6 +819,20 @@ def main(tier):
     for b in broken:
         ck.report("C15:proof-obligation", "proof obligation broken: %s" % b[:300], "proof-obligation", b[:2000],
                   failing_input_found=False)
+    # failing-input search over the whole run: a disagreement between the real code and the model of one format's
+    # loader, for which the image itself (and its single-segment variants) gives the oracle nothing to judge, is
+    # reported through the failing inputs the oracle found for that format's loader elsewhere in this run
+    with_input = {v["signature"].split(":")[1] for v in ck.violations if v["failing_input_found"]}
+    code_kinds = ("zone-objects", "zone-cache", "image-read", "fetch-window", "pc", "accept/reject", "relocate", "load_program-raised")
+    kept, folded = [], 0
+    for item in run.corr:
+        kind, _, f_ = item[0].rpartition(":")
+        if kind in code_kinds and f_ in with_input:
+            folded += 1
+            ck.count("disagreement.reported-through-failing-inputs-of-the-run.%s" % f_)
+        else:
+            kept.append(item)
+    run.corr = kept
     if run.unrepaired and not ck.violations:
         # the real code behaves like the unrepaired model somewhere, yet no failing input was found anywhere in the run
         run.corr += run.unrepaired
@@ -831,7 +845,7 @@ def main(tier):
                   "memory that contradicts the file's mapping" % (what, sum(1 for x in run.corr if x[0] == what)),
                   "correspondence", tie, case=case, real=real, model=model, failing_input_found=False)
     ck.oblige("correspondence zone objects / cache / pc / segment reads / fetch windows (ELF, PE, Mach-O, HEX, SREC, raw)",
-              not run.corr, "%d disagreements" % len(run.corr))
+              not run.corr and not folded, "%d disagreements" % (len(run.corr) + folded))
     ck.assumptions += [
         "the model is fed with the program-header / section / import tables read by harness/load_oracle.py (independent of amoco); "
         "amoco's own parsing of those tables is compared only through the resulting memory image",
